@@ -91,6 +91,7 @@ def analyse_C10(cases, rep):
             if nonempty and (l2off + span > l1span or off + span > sspan):
                 rep.violation(payload(c, kind='view-reaches-beyond-source-span (view of a view)', offset=off, view_span=span, source_span=sspan, level2_offset=l2off, level1_span=l1span)); continue
             continue
+        if c.kind == 'ushift': continue      # the decoy customization point shifts the offset on purpose: C04's matter (submdspan uses what it returns)
         xi, xm = c.out('info'), c.out('info', side='model')
         rep.cov['evaluations'] += 1; rep.cov['traces_validated_against_impl'] += 1
         fields = lambda s: ' '.join(t for t in s.split() if t.split('=')[0] in ('off', 'span', 'sspan', 'ext')) if s.startswith('off=') else s
